@@ -42,20 +42,95 @@ Section Whole.
   Qed.
 End Whole.
 
-(* an unknown variable name: every tuple-key / name-key path raises and leaves the object unchanged *)
+(* an unknown variable name (since fix 216fc36 also on the tuple-key write path, where 'attributes' / 'strict' used to reach the
+   container's own bookkeeping): every path raises KeyError (AttributeError for the attribute read) BEFORE anything is located
+   or written — whatever the lookup would answer for the label, whatever the operand — and the object is unchanged *)
 Theorem unknown_name_paths {V} (lc : label -> outcome loc) (st : cstate V) (name : string) :
   lookup name (c_vars st) = None ->
   (forall k, get_item_with lc st name k = Raise KeyError)
   /\ get_key st name = Raise KeyError /\ get_attr st name = Raise AttributeError
-  /\ (forall k w, fst (set_item_with lc st name k w) = st /\ exists e, snd (set_item_with lc st name k w) = Raise e)
+  /\ (forall k w, set_item_with lc st name k w = (st, Raise KeyError))
   /\ (forall i v, set_pos st name i v = (st, Raise KeyError))
   /\ (forall w id, set_whole st name w id = (st, Raise KeyError)).
 Proof.
   intros H. split; [intros k; unfold get_item_with; rewrite H; reflexivity|].
   split; [unfold get_key; rewrite H; reflexivity|]. split; [unfold get_attr; rewrite H; reflexivity|].
-  split.
-  - intros k w. unfold set_item_with. destruct k as [x|a b s].
-    + destruct (lc x) as [l|e]; [rewrite H|]; simpl; split; try reflexivity; eexists; reflexivity.
-    + destruct (resolve_slice_with lc (c_span st) a b s) as [[[i j] s']|e]; [rewrite H|]; simpl; split; try reflexivity; eexists; reflexivity.
-  - split; [intros i v; unfold set_pos; rewrite H; reflexivity | intros w id; unfold set_whole; rewrite H; reflexivity].
+  split; [intros k w; unfold set_item_with; rewrite H; reflexivity|].
+  split; [intros i v; unfold set_pos; rewrite H; reflexivity | intros w id; unfold set_whole; rewrite H; reflexivity].
+Qed.
+
+(* the name test comes first: even a label whose lookup would fail otherwise (IndexError on an empty span's open slice, a
+   non-KeyError from an oracle) is not looked up for an unknown name *)
+Theorem unknown_name_before_lookup {V} (lc1 lc2 : label -> outcome loc) (st : cstate V) (name : string) k w :
+  lookup name (c_vars st) = None -> set_item_with lc1 st name k w = set_item_with lc2 st name k w.
+Proof. intros H. unfold set_item_with. rewrite H. reflexivity. Qed.
+
+(* ================= negative steps and step 0 in label slices (OUTSIDE the property, which speaks of positive steps only;
+   stated so that the behaviour of the code is on record) =================
+   The inclusive-stop adjustment `stop_location += 1` is applied whatever the sign of the step.  With a negative step Python
+   walks down from pos a and stops BEFORE reaching pos b + 1: neither the stop label nor the period after it is addressed. *)
+Lemma range_down_In fuel : forall a s b, s < 0 -> 0 <= b -> a - b <= Z.of_nat fuel ->
+  forall q, In q (range_down fuel a s b) <-> exists i : nat, Z.of_nat q = a + Z.of_nat i * s /\ b < a + Z.of_nat i * s.
+Proof.
+  induction fuel as [|f IH]; intros a s b Hs Hb Hf q; simpl.
+  - split; [tauto|]. intros [i [_ H]]. nia.
+  - destruct (b <? a) eqn:E.
+    + apply Z.ltb_lt in E. simpl. rewrite (IH (a + s) s b) by lia. split.
+      * intros [H|[i [H1 H2]]].
+        -- exists O. subst q. rewrite Z2Nat.id by lia. lia.
+        -- exists (S i). lia.
+      * intros [[|i] [H1 H2]].
+        -- left. lia.
+        -- right. exists i. lia.
+    + apply Z.ltb_ge in E. split; [simpl; tauto|]. intros [i [_ H]]. nia.
+Qed.
+
+Theorem negative_step_positions (n pa pb : nat) (s : Z) :
+  (pa < n)%nat -> (pb < n)%nat -> s < 0 ->
+  exists L, np_slice_positions n (Z.of_nat pa) (Z.of_nat pb + 1) s = Ret L
+    /\ forall q, In q L <-> exists i : nat, Z.of_nat q = Z.of_nat pa + Z.of_nat i * s /\ Z.of_nat pb + 1 < Z.of_nat q.
+Proof.
+  intros Ha Hb Hs. unfold np_slice_positions. replace (s =? 0) with false by lia. replace (0 <? s) with false by lia.
+  eexists. split; [reflexivity|]. intros q.
+  assert (Ca : clip_neg (Z.of_nat n) (Z.of_nat pa) = Z.of_nat pa).
+  { unfold clip_neg. replace (Z.of_nat pa <? 0) with false by lia. replace (Z.of_nat n <=? Z.of_nat pa) with false by lia. reflexivity. }
+  rewrite Ca. unfold clip_neg. replace (Z.of_nat pb + 1 <? 0) with false by lia.
+  destruct (Z.of_nat n <=? Z.of_nat pb + 1) eqn:E.
+  - apply Z.leb_le in E. rewrite (range_down_In n (Z.of_nat pa) s (Z.of_nat n - 1)) by lia. split.
+    + intros [i [H1 H2]]. nia.
+    + intros [i [H1 H2]]. nia.
+  - apply Z.leb_gt in E. rewrite (range_down_In n (Z.of_nat pa) s (Z.of_nat pb + 1)) by lia. split.
+    + intros [i [H1 H2]]. exists i. lia.
+    + intros [i [H1 H2]]. exists i. lia.
+Qed.
+
+Theorem negative_step_get {V} (lc : label -> outcome loc) (st : cstate V) (name : string) (sr : series V)
+        (a b : option label) (s : Z) (pa pb : nat) :
+  locate_spec (span_labels (c_span st)) lc ->
+  lookup name (c_vars st) = Some sr ->
+  length (s_data sr) = length (span_labels (c_span st)) ->
+  NoDup (span_labels (c_span st)) ->
+  start_pos (span_labels (c_span st)) a = Some pa -> stop_pos (span_labels (c_span st)) b = Some pb -> s < 0 ->
+  exists L, get_item_with lc st name (KSlice a b (Some s)) = Ret (RArr (gather (s_data sr) L))
+    /\ forall q, In q L <-> exists i : nat, Z.of_nat q = Z.of_nat pa + Z.of_nat i * s /\ Z.of_nat pb + 1 < Z.of_nat q.
+Proof.
+  intros Hspec Hv Hlen ND Ha Hb Hs.
+  pose proof (start_pos_lt _ _ _ Ha) as La. pose proof (stop_pos_lt _ _ _ Hb) as Lb. rewrite <- Hlen in La, Lb.
+  destruct (negative_step_positions (length (s_data sr)) pa pb s La Lb Hs) as [L [HL HI]].
+  exists L. split; [|exact HI]. unfold get_item_with. rewrite Hv.
+  rewrite (resolve_slice_ok lc st Hspec a b (Some s) pa pb ND Ha Hb). simpl. rewrite HL. reflexivity.
+Qed.
+
+(* step 0: ValueError from NumPy, for reads and writes alike; a write changes nothing *)
+Theorem zero_step_rejected {V} (lc : label -> outcome loc) (st : cstate V) (name : string) (sr : series V)
+        (a b : option label) (pa pb : nat) (w : operand V) :
+  locate_spec (span_labels (c_span st)) lc ->
+  lookup name (c_vars st) = Some sr ->
+  NoDup (span_labels (c_span st)) ->
+  start_pos (span_labels (c_span st)) a = Some pa -> stop_pos (span_labels (c_span st)) b = Some pb ->
+  get_item_with lc st name (KSlice a b (Some 0)) = Raise ValueError
+  /\ set_item_with lc st name (KSlice a b (Some 0)) w = (st, Raise ValueError).
+Proof.
+  intros Hspec Hv ND Ha Hb. unfold get_item_with, set_item_with. rewrite Hv.
+  rewrite (resolve_slice_ok lc st Hspec a b (Some 0) pa pb ND Ha Hb). split; reflexivity.
 Qed.
